@@ -3338,7 +3338,11 @@ XPath::stepPattern(
 
             const XalanNode::NodeType   nodeType = context->getNodeType();
 
-            if(nodeType != XalanNode::ATTRIBUTE_NODE)
+            // This is a step on the child axis, so it cannot match an
+            // attribute, or a root node, which is nobody's child.
+            if(nodeType != XalanNode::ATTRIBUTE_NODE &&
+               nodeType != XalanNode::DOCUMENT_NODE &&
+               nodeType != XalanNode::DOCUMENT_FRAGMENT_NODE)
             {
                 opPos += 3;
 
